@@ -1,1 +1,240 @@
-import GeoModel
+/-
+  C14 — RectFromCenter (geo/geo.go) over ℝ, partial.
+
+  Statements are about `Gen.rectFromCenter` (generated from the Go source) at the exact
+  instance `GeoNum ℝ`; the result is (minLat, minLon, maxLat, maxLon) in degrees.
+  `R` = 6371000, `rad` = π/180; `rectThr` = 0.999999999999999 is the tiny-radius threshold and
+  `rectLonDelta φ r` the tangent-longitude half-width used by the code (GeoProofs/GeoLemmas).
+
+  Proved: range of the result (unconditional), pole widening, wrap-around widening, the
+  degenerate tiny-radius rectangle, latitude coverage outside the tiny-radius branch.
+
+  Finding (`rect_lat_cover_counterexample`): in the tiny-radius branch (cos(m/R) >
+  0.999999999999999, i.e. radii below ≈ 0.28 m) the rectangle is the centre POINT, so it does not
+  cover points that are within distance m of the centre; coverage holds only outside that
+  branch (`rect_lat_cover_partial`).
+
+  NOT expected / not attempted here:
+    * longitude coverage by the tangent-longitude formula (`rectLonDelta`);
+    * NaN-freedom — not expressible over ℝ, where arcsin/arccos are clamped and x/0 = 0
+      (in float64 `latSin / rCos`, `… / (latTCos * latCos)` can produce NaN/±Inf near the
+      poles; the comparisons that follow are then false).
+-/
+import GeoProofs.GeoLemmas
+import GeoProofs.Props.C15
+
+namespace Geo.C14
+open Geo GeoReal Real Geo.C15
+
+local notation "R" => (6371000 : ℝ)
+local notation "rad" => (π / 180)
+local notation "deg" => (180 / π)
+
+private theorem neg_ninety_rad : (-90 : ℝ) * rad = -π / 2 := by ring
+private theorem ninety_rad : (90 : ℝ) * rad = π / 2 := by ring
+private theorem pi_deg : π * deg = 180 := by have := pi_ne_zero; field_simp
+private theorem neg_pi_deg : -π * deg = -180 := by have := pi_ne_zero; field_simp
+
+/-! ### ranges (hold for ALL inputs: the adjustments clamp) -/
+
+theorem rect_lat_bounds (lat lon m : ℝ) :
+    -90 ≤ (Gen.rectFromCenter lat lon m).1 ∧ (Gen.rectFromCenter lat lon m).2.2.1 ≤ 90 := by
+  rw [rectFromCenter_eq]
+  simp only [rectRad]
+  constructor
+  · apply le_mul_deg
+    rw [neg_ninety_rad, rectS4_fst]
+    exact rectS3_fst_ge _
+  · apply mul_deg_le
+    rw [ninety_rad, rectS4_maxLat, rectS3_maxLat]
+    exact rectS2_maxLat_le _
+
+theorem rect_lon_bounds (lat lon m : ℝ) :
+    -180 ≤ (Gen.rectFromCenter lat lon m).2.1 ∧ (Gen.rectFromCenter lat lon m).2.2.2 ≤ 180 := by
+  rw [rectFromCenter_eq]
+  simp only [rectRad]
+  obtain ⟨h1, h2⟩ := rectS4_lon (rectS3 (rectS2 (rectS1 (lat * rad) (lon * rad) (m / R))))
+  constructor
+  · apply le_mul_deg
+    rw [show (-180 : ℝ) * rad = -π by ring]; exact h1
+  · apply mul_deg_le
+    rw [show (180 : ℝ) * rad = π by ring]; exact h2
+
+/-! ### widening -/
+
+/-- If (outside the tiny-radius branch) the circle reaches over a pole — `lat + m/R` above 90° or
+    `lat − m/R` below −90°, written in radians — the longitudes are the full range. -/
+theorem rect_pole_widens (lat lon m : ℝ) (hbig : cos (m / R) ≤ rectThr)
+    (h : π / 2 < lat * rad + m / R ∨ lat * rad - m / R < -π / 2) :
+    (Gen.rectFromCenter lat lon m).2.1 = -180 ∧ (Gen.rectFromCenter lat lon m).2.2.2 = 180 := by
+  rw [rectFromCenter_eq]
+  simp only [rectRad]
+  have hs : rectS1 (lat * rad) (lon * rad) (m / R) =
+      (lat * rad - m / R, lon * rad - rectLonDelta (lat * rad) (m / R), lat * rad + m / R,
+        lon * rad + rectLonDelta (lat * rad) (m / R)) := by
+    rw [rectS1, if_neg (not_lt.2 hbig)]
+  obtain ⟨h1, h2⟩ := rectAdj_full_of_pole (rectS1 (lat * rad) (lon * rad) (m / R))
+    (by rw [hs]; exact h)
+  rw [h1, h2, pi_deg, neg_pi_deg]
+  exact ⟨rfl, rfl⟩
+
+/-- general form: whenever the unadjusted longitude interval (after the tiny-radius test) leaves
+    [−π, π], the result has the full longitude range -/
+theorem rect_wrap_widens_general (lat lon m : ℝ)
+    (h : (rectS1 (lat * rad) (lon * rad) (m / R)).2.1 < -π
+          ∨ π < (rectS1 (lat * rad) (lon * rad) (m / R)).2.2.2) :
+    (Gen.rectFromCenter lat lon m).2.1 = -180 ∧ (Gen.rectFromCenter lat lon m).2.2.2 = 180 := by
+  rw [rectFromCenter_eq]
+  simp only [rectRad]
+  obtain ⟨h1, h2⟩ := rectAdj_full_of_wrap _ h
+  rw [h1, h2, pi_deg, neg_pi_deg]
+  exact ⟨rfl, rfl⟩
+
+/-- outside the tiny-radius branch the unadjusted interval is `lon ± rectLonDelta` -/
+theorem rect_wrap_widens (lat lon m : ℝ) (hbig : cos (m / R) ≤ rectThr)
+    (h : lon * rad - rectLonDelta (lat * rad) (m / R) < -π
+          ∨ π < lon * rad + rectLonDelta (lat * rad) (m / R)) :
+    (Gen.rectFromCenter lat lon m).2.1 = -180 ∧ (Gen.rectFromCenter lat lon m).2.2.2 = 180 := by
+  apply rect_wrap_widens_general
+  rw [rectS1, if_neg (not_lt.2 hbig)]
+  exact h
+
+/-! ### tiny radius -/
+
+theorem rect_tiny_radius_degenerate (lat lon m : ℝ) (hlat : -90 ≤ lat ∧ lat ≤ 90)
+    (hlon : -180 ≤ lon ∧ lon ≤ 180) (htiny : rectThr < cos (m / R)) :
+    Gen.rectFromCenter lat lon m = (lat, lon, lat, lon) := by
+  rw [rectFromCenter_eq]
+  simp only [rectRad]
+  have hs : rectS1 (lat * rad) (lon * rad) (m / R) = (lat * rad, lon * rad, lat * rad, lon * rad) := by
+    rw [rectS1, if_pos htiny]
+  have h1 := mul_rad_le hlat.1
+  have h2 := mul_rad_le hlat.2
+  have h3 := mul_rad_le hlon.1
+  have h4 := mul_rad_le hlon.2
+  rw [hs, rectAdj_id _ (by simp only; linarith) (by simp only; linarith) (by simp only; linarith)
+    (by simp only; linarith)]
+  simp only [mul_rad_mul_deg]
+
+/-! ### latitude coverage -/
+
+/-- the great-circle distance dominates the latitude difference: `R·|Δφ| ≤ distance` -/
+theorem lat_diff_le_distance (lat lon plat plon : ℝ) (hlat : -90 ≤ lat ∧ lat ≤ 90)
+    (hplat : -90 ≤ plat ∧ plat ≤ 90) :
+    R * |plat * rad - lat * rad| ≤ Gen.distanceTo lat lon plat plon := by
+  rw [distanceTo_eq, distanceFromHaversine_eq, haversine_eq]
+  have h1 := mul_rad_le hlat.1
+  have h2 := mul_rad_le hlat.2
+  have h3 := mul_rad_le hplat.1
+  have h4 := mul_rad_le hplat.2
+  have hx : |(plat * rad - lat * rad) / 2| ≤ π / 2 := by
+    rw [abs_le]; constructor <;> linarith
+  have hh : sin ((plat * rad - lat * rad) / 2) ^ 2 ≤
+      sin ((plat * rad - lat * rad) / 2) ^ 2
+        + cos (lat * rad) * cos (plat * rad) * sin ((plon * rad - lon * rad) / 2) ^ 2 :=
+    le_add_of_nonneg_right
+      (mul_nonneg (mul_nonneg (cos_lat_nonneg hlat) (cos_lat_nonneg hplat)) (sq_nonneg _))
+  have := abs_le_two_arcsin_sqrt hx hh
+  rw [abs_div, abs_of_pos (by norm_num : (0 : ℝ) < 2)] at this
+  linarith
+
+/-- Outside the tiny-radius branch, every point within distance `m` of the centre has its
+    latitude inside [minLat, maxLat]. -/
+theorem rect_lat_cover_partial (lat lon m plat plon : ℝ) (hlat : -90 ≤ lat ∧ lat ≤ 90)
+    (hplat : -90 ≤ plat ∧ plat ≤ 90) (hbig : cos (m / R) ≤ rectThr)
+    (hd : Gen.distanceTo lat lon plat plon ≤ m) :
+    (Gen.rectFromCenter lat lon m).1 ≤ plat ∧ plat ≤ (Gen.rectFromCenter lat lon m).2.2.1 := by
+  have hdist := lat_diff_le_distance lat lon plat plon hlat hplat
+  have habs : |plat * rad - lat * rad| ≤ m / R := by
+    rw [le_div_iff₀ (by norm_num : (0 : ℝ) < R)]; linarith
+  rw [abs_le] at habs
+  have h3 := mul_rad_le hplat.1
+  have h4 := mul_rad_le hplat.2
+  rw [rectFromCenter_eq]
+  simp only [rectRad]
+  have hs : rectS1 (lat * rad) (lon * rad) (m / R) =
+      (lat * rad - m / R, lon * rad - rectLonDelta (lat * rad) (m / R), lat * rad + m / R,
+        lon * rad + rectLonDelta (lat * rad) (m / R)) := by
+    rw [rectS1, if_neg (not_lt.2 hbig)]
+  constructor
+  · apply mul_deg_le
+    rw [rectAdj_fst, hs]
+    exact max_le (by simp only; linarith) (by linarith)
+  · apply le_mul_deg
+    rw [rectAdj_maxLat, hs]
+    exact le_min (by simp only; linarith) (by linarith)
+
+/-- In the tiny-radius branch coverage FAILS: centre (0,0), radius m = R·10⁻⁸ ≈ 6.4 cm; the point
+    at latitude 10⁻⁸ rad on the same meridian is at distance exactly m, but the rectangle is
+    the single point (0,0). -/
+theorem rect_lat_cover_counterexample :
+    ¬ ∀ lat lon m plat plon : ℝ, (-90 ≤ lat ∧ lat ≤ 90) → (-90 ≤ plat ∧ plat ≤ 90) →
+        (0 ≤ m ∧ m ≤ π * R) → Gen.distanceTo lat lon plat plon ≤ m →
+        (Gen.rectFromCenter lat lon m).1 ≤ plat ∧ plat ≤ (Gen.rectFromCenter lat lon m).2.2.1 := by
+  intro h
+  have hp := pi_pos
+  have hp3 := pi_le_four
+  have hp2 := two_le_pi
+  -- the witness
+  have hplat : (-90 : ℝ) ≤ 1e-8 * deg ∧ (1e-8 : ℝ) * deg ≤ 90 := by
+    constructor
+    · have : (0 : ℝ) ≤ 1e-8 * deg := by positivity
+      linarith
+    · rw [mul_div_assoc', div_le_iff₀ hp]; norm_num; nlinarith
+  have hm : (0 : ℝ) ≤ R * 1e-8 ∧ R * 1e-8 ≤ π * R := by
+    constructor
+    · norm_num
+    · nlinarith
+  have hmr : R * 1e-8 / R = (1e-8 : ℝ) := by norm_num
+  have htiny : rectThr < cos (R * 1e-8 / R) := by
+    rw [hmr]
+    have := one_sub_sq_div_two_le_cos (x := (1e-8 : ℝ))
+    unfold rectThr
+    have : (0.999999999999999 : ℝ) < 1 - (1e-8 : ℝ) ^ 2 / 2 := by norm_num
+    linarith
+  have hrect := rect_tiny_radius_degenerate 0 0 (R * 1e-8) ⟨by norm_num, by norm_num⟩
+    ⟨by norm_num, by norm_num⟩ htiny
+  have hd : Gen.distanceTo 0 0 (1e-8 * deg) 0 ≤ R * 1e-8 := by
+    rw [distanceTo_eq, distanceFromHaversine_eq, haversine_eq]
+    have e : (1e-8 * deg * rad - 0 * rad) / 2 = (1e-8 : ℝ) / 2 := by field_simp; ring
+    rw [e]
+    simp only [zero_mul, sub_self, zero_div, sin_zero]
+    have hs : 0 ≤ sin ((1e-8 : ℝ) / 2) := sin_nonneg_of_nonneg_of_le_pi (by norm_num) (by linarith)
+    have : sin ((1e-8 : ℝ) / 2) ^ 2 + cos 0 * cos (1e-8 * deg * rad) * 0 ^ 2
+        = sin ((1e-8 : ℝ) / 2) ^ 2 := by ring
+    rw [this, sqrt_sq hs, arcsin_sin (by linarith) (by linarith)]
+    norm_num
+  have := (h 0 0 (R * 1e-8) (1e-8 * deg) 0 ⟨by norm_num, by norm_num⟩ hplat hm hd).2
+  rw [hrect] at this
+  simp only at this
+  have : (0 : ℝ) < 1e-8 * deg := by positivity
+  linarith
+
+/-! ### non-vacuity -/
+
+/-- the pole-widening hypotheses are satisfiable: centre at latitude 80°, radius a quarter of the
+    circumference (`m/R = π/2`, `cos = 0 ≤ rectThr`) -/
+example : (Gen.rectFromCenter 80 0 (π / 2 * R)).2.1 = -180 ∧
+    (Gen.rectFromCenter 80 0 (π / 2 * R)).2.2.2 = 180 := by
+  have hp := pi_pos
+  have e : π / 2 * R / R = π / 2 := by field_simp
+  apply rect_pole_widens
+  · rw [e, cos_pi_div_two]; unfold rectThr; norm_num
+  · left; rw [e]; nlinarith
+
+/-- the tiny-radius hypothesis is satisfiable (m = 0) -/
+example : Gen.rectFromCenter (10 : ℝ) 20 0 = (10, 20, 10, 20) := by
+  apply rect_tiny_radius_degenerate 10 20 0 ⟨by norm_num, by norm_num⟩ ⟨by norm_num, by norm_num⟩
+  rw [zero_div, cos_zero]; unfold rectThr; norm_num
+
+end Geo.C14
+
+#print axioms Geo.C14.rect_lat_bounds
+#print axioms Geo.C14.rect_lon_bounds
+#print axioms Geo.C14.rect_pole_widens
+#print axioms Geo.C14.rect_wrap_widens_general
+#print axioms Geo.C14.rect_wrap_widens
+#print axioms Geo.C14.rect_tiny_radius_degenerate
+#print axioms Geo.C14.lat_diff_le_distance
+#print axioms Geo.C14.rect_lat_cover_partial
+#print axioms Geo.C14.rect_lat_cover_counterexample
